@@ -979,3 +979,35 @@ def check_implicit_modules():
 PRECHECKS.append(check_implicit_modules)
 
 U.modules['sys'] = {'modules': z3.Const('sys_modules', z3.SetSort(z3.StringSort()))}       # which modules are loaded: any set of names
+
+
+# ==== frozenset: the call frozenset([...]) around the list of its items (C01, C08, C10) ===========================================
+@C.spec([('xs', 'ValList')], 'Val', opaque=True)
+def list_val(xs):
+    """the list object list(value) handed on to the list printer"""
+    return list(xs)
+
+
+def _list_hook2(I, v):
+    if is_z3(v) and I.sort_of(v) == 'Val':
+        return S(I, 'list_val', S(I, 'items', v)) if getattr(I, 'list_as_value', False) else S(I, 'items', v)
+    raise OutsideSubset('list() of %r' % (v,))
+
+
+def _to_arg2(I, a):
+    if is_z3(a) and I.sort_of(a) == 'ValList':
+        return U.ctor('Arg', 'AVal')(S(I, 'list_val', a))          # a list built from the items, passed as an argument object
+    return _to_arg_base(I, a)
+
+
+_to_arg_base = _to_arg
+_to_arg = _to_arg2
+C.contract(
+    PP, 'pretty_frozenset', params={'value': 'Val', 'ctx': 'Ctx'}, returns='Doc',
+    requires=[('container-truthiness', 'truthy(value) == (vlen(value) != 0)')],
+    ensures=[('non-empty-is-the-call-around-the-list-of-all-items',
+              'implies(vlen(value) != 0, result == call_alt(ctx, cls_of(value), [AVal(list_val(items(value)))]))'),
+             ('empty-keeps-class', 'implies(vlen(value) == 0, result == call_alt(ctx, cls_of(value), []))')],
+    serves=['C01', 'C08', 'C10'],
+    note='the whole item list is handed to the list printer under the same context (which truncates it and states the count: proved for '
+         'pretty_bracketable_iterable); a copy that drops items here is refuted')
